@@ -923,7 +923,8 @@ theorem wf_step (st : State) (x : Step) (hwf : WF st) : WF (step st x).1 := by
           | batchPrep op f o =>
             simp only [PcOK] at hpk
             cases resp <;> simp only [step, recv, hck] <;> (try split) <;>
-              simp [finish, send, setCaller, PcOK, WireOK, hpk.2]
+              simp [finish, send, setCaller, PcOK, WireOK]
+            exact fun a b h => hpk.2 (a, b) h
         · exact hfinal j hj
 
 /-- `WF` holds along EVERY history. -/
